@@ -28,7 +28,7 @@ THEOREMS = [
     "C15.timestamp_is_clock",
     "C15.time_interval_diffs",
 ]
-RULE = ("30% of the cases are RUN in fractional seconds (1/10 or 1/100 s per unit, float clock or datetime clock, float or timedelta durations, optionally a wall-clock sized epoch) while generated, modelled and judged in exact integer units, so gaps exactly equal to a due time stay exact; 25% of the cases subscribe the SAME observable instance a second time (overlapping or later; absolute due times too) and compare with a fresh "
+RULE = ("25% of the timestamp / time_interval / delay (and part of the delay_subscription) cases give the operator the scheduler of the timeline explicitly and subscribe with a DIFFERENT scheduler (never started, or ImmediateScheduler): the operator-level one must win; 40% of the delay_with_mapper cases with a subscription delay pass it as a bare abc.ObservableBase implementation; 30% of the cases are RUN in fractional seconds (1/10 or 1/100 s per unit, float clock or datetime clock, float or timedelta durations, optionally a wall-clock sized epoch) while generated, modelled and judged in exact integer units, so gaps exactly equal to a due time stay exact; 25% of the cases subscribe the SAME observable instance a second time (overlapping or later; absolute due times too) and compare with a fresh "
         "single subscription; delay observables of delay_with_mapper include ones that signal inside subscribe (BehaviorSubject, finished Subject, "
         "empty() on ImmediateScheduler); delay_subscription also subscribed without a scheduler argument; timelines of 0..7 elements + terminal (completed/error/none; 12% non-conforming or with pre-subscription messages): bursts at one instant, "
         "gaps of exactly d-1/d/d+1, an error while elements are pending / at the instant an element is due, delays 0, relative and absolute (datetime); "
@@ -86,6 +86,12 @@ def cases(rng, tier):
             if op == "delay_subscription" and c["sched"] == "test" and "sub2" not in c and rng.random() < 0.25:
                 c["inline"] = True          # subscribed without a scheduler argument: the mapper's empty() completes inline
             c["msgs"] = T.to_cold(msgs) if src == "cold" else msgs
+            if op in ("timestamp", "time_interval", "delay"):
+                T.gen_opsched(rng, c)          # operator-level scheduler (of the timeline) + a different subscribe-level scheduler
+            if op == "delay_subscription" and c.get("inline") and rng.random() < 0.5:
+                c["opsched"] = True            # ... here: ImmediateScheduler at subscribe level (the empty() delays complete inline)
+            if op == "delay_with_mapper" and c["subdelay"] is not None and rng.random() < 0.4:
+                c["bare"] = True               # the subscription delay as a bare abc.ObservableBase implementation
             T.gen_scale(rng, c, wall_ok=c["sched"] == "hist")          # fractional seconds / timedelta durations / wall-clock epoch
             yield c
 
@@ -107,11 +113,11 @@ def build(case, rc, sched, xs, hist):
         return T.real_dur(case, case["at"], hist)
 
     if op == "timestamp":
-        return xs.pipe(ops.timestamp(), ops.map(lambda ts: (ts.value, T.unit_of_dt(case, ts.timestamp))))
+        return xs.pipe(ops.timestamp(**T.sk(case, sched)), ops.map(lambda ts: (ts.value, T.unit_of_dt(case, ts.timestamp))))
     if op == "time_interval":
-        return xs.pipe(ops.time_interval(), ops.map(lambda ti: (ti.value, T.unit_of_span(case, ti.interval))))
+        return xs.pipe(ops.time_interval(**T.sk(case, sched)), ops.map(lambda ti: (ti.value, T.unit_of_span(case, ti.interval))))
     if op == "delay":
-        return xs.pipe(ops.delay(when()))
+        return xs.pipe(ops.delay(when(), **T.sk(case, sched)))
     if op == "delay_subscription":
         if case.get("inline"):
             return xs.pipe(ops.delay_subscription(when(), scheduler=sched))
@@ -122,7 +128,7 @@ def build(case, rc, sched, xs, hist):
         mapper = T.make_mapper(sched, rc)
         if case["subdelay"] is None:
             return xs.pipe(ops.delay_with_mapper(mapper))
-        sd = sched.create_cold_observable(T.recorded(rc["subdelay"])) if case["subdelay"] else reactivex.never()
+        sd = T.maybe_bare(case, sched.create_cold_observable(T.recorded(rc["subdelay"])) if case["subdelay"] else reactivex.never())
         return xs.pipe(ops.delay_with_mapper(sd, mapper))
     raise ValueError(op)
 
@@ -131,7 +137,7 @@ def impl(case):
     if case["sched"] == "hist":
         return T.run_hist(case, lambda s, xs: build(case, case, s, xs, True))
     rc = T.realize(case)
-    return T.run_test(rc, lambda s, xs: build(case, rc, s, xs, False), no_sched=bool(case.get("inline")))
+    return T.run_test(rc, lambda s, xs: build(case, rc, s, xs, False), no_sched=bool(case.get("inline")) and not case.get("opsched"))
 
 
 def canon_impl(case, io):
@@ -248,6 +254,7 @@ def nontrivial(case, io):
 def bucket(case, io):
     yield from T.shape(case, io)
     yield f"{case['op']}:sched={case['sched']}"
+    yield f"{case['op']}:opsched={bool(case.get('opsched'))}:bare={bool(case.get('bare'))}"
     yield f"{case['op']}:scale={case.get('scale', 1)}:td={bool(case.get('td'))}:wall={bool(case.get('wall'))}"
     yield f"{case['op']}:second-subscription={'sub2' in case}"
     if case["op"] == "delay_with_mapper":
